@@ -376,7 +376,7 @@ deriving Repr, Inhabited
 def solve (U : Universe) (P : Problem) (fuel : Nat) : M Outcome := do
   modify fun s => { (default : S) with
     fetchedCands := s.fetchedCands, fetchedDeps := s.fetchedDeps, hinted := s.hinted, cachedSorted := s.cachedSorted,
-    log := s.log, polls := s.polls, cancelAt := s.cancelAt, cancelAtCall := s.cancelAtCall, cancelTransient := s.cancelTransient,
+    log := s.log, glog := s.glog, polls := s.polls, cancelAt := s.cancelAt, cancelAtCall := s.cancelAtCall, cancelTransient := s.cancelTransient,
     callsStarted := s.callsStarted, raised := s.raised,
     activityAdd := s.activityAdd, activityDecay := s.activityDecay, trace := s.trace,
     asyncMode := s.asyncMode, sched := s.sched, aevents := s.aevents,
